@@ -938,3 +938,45 @@ func (w *World) indexLoopEvery(g *FG, over string, A []bool) bool {
 	}
 	return true
 }
+
+// checkOptionsAppliedOnce: each spawn entry point applies the caller's option functions in one loop. Options
+// are setters (applying them twice is idempotent) except WithMiddleware, which appends: a second pass over the
+// same opts doubles the chain.
+func checkOptionsAppliedOnce(w *World, r *Report, rule string) {
+	n := 0
+	for _, fn := range []*ssa.Function{w.Method("actor", "Engine", "Spawn"), w.Method("actor", "Context", "SpawnChild")} {
+		if fn == nil || !fn.Signature.Variadic() {
+			continue
+		}
+		n++
+		g := w.FGI(fn)
+		optsParam := fmt.Sprintf("P%d", len(fn.Params)-1)
+		A := make([]bool, len(g.ins))
+		for i, in := range g.ins {
+			c, ok := in.(*ssa.Call)
+			if !ok || g.inl[i] || c.Call.IsInvoke() || c.Call.StaticCallee() != nil {
+				continue
+			}
+			if _, isB := c.Call.Value.(*ssa.Builtin); isB {
+				continue
+			}
+			if p := w.pathOf(c.Call.Value); strings.HasPrefix(p, optsParam+"[") {
+				A[i] = true
+			}
+		}
+		ok := anyOf(A)
+		detail := "the option functions are not applied"
+		for _, a := range members(A) {
+			after := g.reach(g.succ[a], nil, nil)
+			for _, b := range members(A) {
+				if b != a && after[b] {
+					ok, detail = false, "the caller's options are applied at "+w.pos(g.ins[a].Pos())+" and again at "+w.pos(g.ins[b].Pos())+": appending options (WithMiddleware) take effect twice, every middleware wraps the receiver twice"
+				}
+			}
+		}
+		r.Check(ok, rule, fname(fn)+":options-applied-once", "the caller's option functions are applied by exactly one loop", w.fnPos(fn), detail)
+	}
+	if n == 0 {
+		r.Unknown(rule, "spawn:options", "variadic spawn entry points", "-", "Engine.Spawn / Context.SpawnChild not found")
+	}
+}
